@@ -1,10 +1,12 @@
 package mon
 
 import (
+	"bytes"
 	"encoding/hex"
 	"encoding/json"
 	"fmt"
 	"math/rand"
+	"reflect"
 	"strings"
 
 	"github.com/amzn/ion-go/ion"
@@ -117,6 +119,59 @@ func runCtxCase(k *CtxCase) (verdict string) {
 	if r.Err() != nil {
 		return "second pass failed: " + r.Err().Error()
 	}
+	// pass 3: every way in that takes a catalog resolves alike (System's readers and Unmarshal entry points)
+	sys := ion.System{Catalog: ic}
+	for name, rd := range map[string]ion.Reader{
+		"System.NewReader":       sys.NewReader(bytes.NewReader(data)),
+		"System.NewReaderBytes":  sys.NewReaderBytes(data),
+		"System.NewReaderString": sys.NewReaderString(string(data)),
+	} {
+		o2 := ionx.Observe(rd)
+		if o2.Failed() {
+			return name + " fails on a history NewReaderCat reads: " + o2.ErrString()
+		}
+		if d := model.Diff(want, o2.Vals); d != "" {
+			return name + " resolves differently from NewReaderCat: " + d
+		}
+	}
+	if len(want) > 0 {
+		decode := func(f func(v interface{}) error) (img *model.Value, err error, pan string) {
+			defer func() {
+				if rec := recover(); rec != nil {
+					pan = ionx.PanicSite(rec)
+				}
+			}()
+			var x interface{}
+			err = f(&x)
+			if err == nil {
+				img, _ = imageOf(reflect.ValueOf(&x).Elem(), "", true)
+			}
+			return
+		}
+		baseImg, baseErr, pan := decode(func(v interface{}) error {
+			return ion.NewDecoder(ion.NewReaderCat(bytes.NewReader(data), ic)).DecodeTo(v)
+		})
+		if pan != "" {
+			return "panic: " + pan
+		}
+		for name, f := range map[string]func(v interface{}) error{
+			"System.Unmarshal":       func(v interface{}) error { return sys.Unmarshal(data, v) },
+			"System.UnmarshalString": func(v interface{}) error { return sys.UnmarshalString(string(data), v) },
+		} {
+			img, err, pan := decode(f)
+			if pan != "" {
+				return name + " panic: " + pan
+			}
+			if (err == nil) != (baseErr == nil) {
+				return fmt.Sprintf("%s returned %v where a Decoder over NewReaderCat returned %v", name, err, baseErr)
+			}
+			if err == nil && baseImg != nil && img != nil {
+				if d := model.DiffOpt([]*model.Value{baseImg}, []*model.Value{img}, model.EqOpts{UnorderedStructs: true}); d != "" {
+					return name + " decodes the first value differently from a Decoder over NewReaderCat: " + d
+				}
+			}
+		}
+	}
 	return ""
 }
 
@@ -171,6 +226,10 @@ func (h *histGen) lstSpec() (refsym.LSTSpec, string) {
 				imp.MaxID = int64(r.Intn(3))
 			default:
 				imp.MaxID = int64(r.Intn(8))
+				if r.Intn(12) == 0 {
+					// declared sizes beyond 32 bits only reserve ids
+					imp.MaxID = []int64{1<<31 - 1, 1 << 31, 1<<31 + 7, 1 << 32, 1<<40 + 3}[r.Intn(5)]
+				}
 			}
 			spec.Imports = append(spec.Imports, imp)
 			desc += fmt.Sprintf(" import(%s,v%d,max %d)", imp.Name, imp.Version, imp.MaxID)
